@@ -83,6 +83,7 @@ type world struct {
 	counters map[string]int64                // delivered-id -> recorded total
 	timers   map[string]int
 	hists    map[string]int64
+	dirty    map[string]bool // delivered-ids of children reached through a tag value the sanitizer rewrites
 }
 
 func (w *world) saw(key string, obj interface{}) {
@@ -151,13 +152,26 @@ func doReq(w *world, scopes []tally.Scope, r Req) {
 		if r.N == 0 {
 			ch = sc.SubScope(n)
 		} else {
-			tg := map[string]string{"k": n}
+			// under the sanitizer the tag value is spelled in a way it rewrites (k-1 -> k_1): the raw and
+			// the sanitized registry key then differ and may hash to different registry shards. Sharing
+			// one object is promised only for inputs the sanitizer leaves unchanged (C05), so identity
+			// and the Allocate count are not judged for these children - delivery totals are.
+			raw := n
+			if w.san {
+				raw, n = fmt.Sprintf("k-%d", r.N), fmt.Sprintf("k_%d", r.N)
+			}
+			tg := map[string]string{"k": raw}
 			ch = sc.Tagged(tg)
 			pbt.Spoil(tg)
 		}
-		w.saw(fmt.Sprintf("child/%d/%s", r.S, n), ch)
+		dirty := w.san && r.N != 0
+		if !dirty {
+			w.saw(fmt.Sprintf("child/%d/%s", r.S, n), ch)
+		}
 		c := ch.Counter("cc")
-		w.saw(fmt.Sprintf("childcounter/%d/%s", r.S, n), c)
+		if !dirty {
+			w.saw(fmt.Sprintf("childcounter/%d/%s", r.S, n), c)
+		}
 		c.Inc(r.D)
 		name := "cc"
 		if r.N == 0 {
@@ -167,6 +181,12 @@ func doReq(w *world, scopes []tally.Scope, r Req) {
 		}
 		w.mu.Lock()
 		w.counters[name] += r.D
+		if dirty {
+			if w.dirty == nil {
+				w.dirty = map[string]bool{}
+			}
+			w.dirty[name] = true
+		}
 		w.mu.Unlock()
 	}
 }
@@ -197,7 +217,9 @@ func judge(errs *pbt.Errs, w *world, events []rec.Event, cached bool) {
 		case rec.KHValue:
 			gotH[deliveredName(e)] += e.I
 		case rec.KAllocC, rec.KAllocG, rec.KAllocT, rec.KAllocH:
-			allocs[e.Kind+"/"+deliveredName(e)]++
+			if !w.dirty[deliveredName(e)] {
+				allocs[e.Kind+"/"+deliveredName(e)]++
+			}
 		}
 	}
 	for k, n := range allocs {
